@@ -4,7 +4,7 @@ CONSTANTS Parent <- TEdgeParent  Area <- TEdgeArea  Height <- TEdgeHeight  Sym <
 CONSTANTS Targets <- TEdgeTargetsAll  Vals <- ValsQ  Facs <- FacsQ  Masses <- MassesQ  Maps <- MapsQ  FracMaps <- FracMapsQ  AddMaps <- AddMapsQ  SetMaps <- SetMapsQ
 CONSTANTS AdjSets <- AdjSetsQ  EnrFracs <- EnrFracsQ  AdjMFs <- AdjMFsQ
 CONSTANTS HDom <- HDom123  HTargets <- TEdgeHAll  HVals <- HDom123
-CONSTANTS LeafVolCut <- LeafVolCutEnv  ScaleRaises <- ScaleRaisesEnv
+CONSTANTS WithLump <- No  LeafVolCut <- LeafVolCutEnv  ScaleRaises <- ScaleRaisesEnv
 SPECIFICATION TSpec
 CONSTRAINT Progress
 POSTCONDITION Report
